@@ -329,14 +329,14 @@ theorem map_mkSort_key_eq (f key key' : Val → Res Val) (rev : Bool) (r : RefDS
   obtain ⟨ws, hws, hks⟩ := mapMAux_total_key f key key' r.stream.err r.stream.vals hf
   unfold Ref.mkSort
   have hs : (Ref.map f r).stream = ⟨ws, r.stream.err⟩ := hws
-  simp only [hs, streamToRes]
-  cases r.stream.err with
-  | some e => rfl
-  | none =>
-    simp only [bind, Except.bind, hks]
-    cases r.stream.vals.mapM key' with
-    | error e => rfl
-    | ok kv =>
+  simp only [hs, streamToRes, bind, Except.bind, hks]
+  cases r.stream.vals.mapM key' with
+  | error e => rfl
+  | ok kv =>
+    simp only []
+    cases r.stream.err with
+    | some e => rfl
+    | none =>
       simp only []
       cases asInts kv with
       | some is => simp only [map_mkSlice_eq]
